@@ -215,6 +215,18 @@ CHECKS = {
             "A decoding error identical in stream and singleton runs is out of reach here (C01 judges singletons "
             "against the reference decoder).",
             "DESIGN.md 3/C11"),
+    "C18": ("exploration",
+            "Hypothesis-generated flat definitions and packet files (extreme field values, interleaved APIDs, several "
+            "files, raw and derived modes); metamorphic oracle: every dataset cell against the library's own parsed "
+            "value",
+            "For definitions with one fixed layout per APID covering every parameter type and encoding, packets with "
+            "extreme values are written to 1..3 files and create_dataset is compared cell by cell (keys, variables, "
+            "row order across files, exact value incl. float bits, text and bytes) with the values packet_generator "
+            "yields, in derived and raw mode; polymorphic streams must be rejected with ValueError. Sampled. One open "
+            "known finding (D14b, trailing NULs dropped by NumPy's fixed-width dtypes) is matched by a narrow "
+            "signature and the search continues past it.",
+            "Decoding itself is C01's subject; integers wider than 64 bits are not generated (no NumPy dtype).",
+            "DESIGN.md 3/C18"),
 }
 
 PENDING_REASON = "check not built yet in this round (planned, see DESIGN.md section 3); nothing is claimed for it"
